@@ -340,6 +340,36 @@ def g_params(tier, seed):
     return out
 
 
+def g_vapour(tier, seed):
+    """the helper of the CO2-aware branch: partial water vapour pressure (hPa) = RH/100 x saturation vapour pressure of Giacomo (1982) /
+    Davis (1992) / Ciddor (1996): svp = exp(A T^2 + B T + C + D/T) Pa, for every humidity in [0, 100] % (exp uninterpreted: the claim is the
+    algebra around it, in particular proportionality to the humidity over the whole range)"""
+    sv, cv = _mods()
+    out = []
+    mk = lambda env: {'env': env}
+
+    def run():
+        h, t = fresh_real('h', 0, 100), fresh_real('t', -20, 45)
+        return (h, t), sv.humidity2part_water_vapour_press(h, t)
+    paths, st = explore(run, max_paths=12)
+    for p in paths:
+        if p.kind != 'return':
+            out.append(ob.decide_goal('O3', 'humidity2part_water_vapour_press: no exception (%r)' % (p.value,), ob.path_conds(p), z3.BoolVal(False), pid=PID,
+                                      oracle='oracles.c19:vapour', args_from_model=mk, key='O3:vapour', domain=DOM, num_conds=p.assumptions + p.pc))
+            continue
+        (h, t), r = p.value
+
+        def ref():
+            tk = t + Fraction('273.15')
+            svp = mathx.exp(Fraction('1.2378847e-5') * tk * tk + Fraction('-1.9121316e-2') * tk + Fraction('33.93711047') + Fraction('-6.3431645e3') / tk)
+            return h / 100 * svp / 100
+        refv, extra = TC.with_facts(ref)
+        out.append(ob.decide_close('O3', 'partial water vapour pressure = RH/100 x saturation vapour pressure (Giacomo 1982), hPa, for every RH in [0, 100] %',
+                                   p, r, refv, 0, pid=PID, key='O3:vapour', oracle='oracles.c19:vapour', domain=DOM, make_args=mk, extra_conds=extra,
+                                   timeout_s=QT[tier], extra_points=[{'h': Fraction(1, 2), 't': 40}, {'h': 1, 't': 45}, {'h': Fraction(1, 100), 't': 20}]))
+    return out
+
+
 _CF = [None]
 
 
@@ -393,4 +423,4 @@ F_PI_UP = Fraction(884279719003555, 2 ** 48)      # the double pi: atan2 never e
 
 def groups(tier):
     return [('joins', g_joins), ('vaconv', g_vaconv), ('atmosphere', g_atmosphere), ('co2_wiring', g_co2_wiring),
-            ('dispersion', g_dispersion), ('params', g_params), ('bearing_ieee', g_bearing_ieee)]
+            ('dispersion', g_dispersion), ('params', g_params), ('vapour', g_vapour), ('bearing_ieee', g_bearing_ieee)]
